@@ -14,7 +14,7 @@ func c10Cfg() *DeclCfg {
 		MaxDepth: 2, MaxFan: 2, PCmds: 50, Types: types, OptsMin: 1, OptsMax: 4, SubGroupsMax: 1, NestMax: 1,
 		PNamespace: 20, PShortOnly: 15, PLongOnly: 15,
 		PPos: 70, PosMax: 5, PRest: 50, PExec: 30, PByTag: 50, PSubOptional: 60, PAliases: 20,
-		ParserOpts: []flags.Options{0, flags.PassDoubleDash, flags.PassDoubleDash, flags.HelpFlag | flags.PassDoubleDash, flags.PassAfterNonOption, flags.PassDoubleDash | flags.IgnoreUnknown},
+		ParserOpts: []flags.Options{0, flags.PassDoubleDash, flags.PassDoubleDash, flags.HelpFlag | flags.PassDoubleDash, flags.PassAfterNonOption, flags.PassDoubleDash | flags.IgnoreUnknown, flags.PassDoubleDash | flags.PassAfterNonOption, flags.PassDoubleDash | flags.PassAfterNonOption | flags.HelpFlag},
 		PosTypes:   []TypeSpec{{K: KString}, {K: KString}, {K: KInt}, {K: KFloat64}, {K: KDuration}, {K: KCelsius}, {K: KUint8}, {K: KPoint}},
 	}
 }
